@@ -499,8 +499,9 @@ theorem inRolling_quiet (w : World) (ns : Rollout) (s os : Sub) (wl : WL) (r0 : 
     (hreason : w.ro.reason = .inRolling)
     (h : inRolling w w.ro ns s wl = .val r0) (herr : r0.err = false) (hrq : r0.requeue = false)
     (hro : normRo r0.w.ro = normRo w.ro) :
-    (w.ro.style = .blueGreen ∧ continuousRelease os wl = true) ∨ os.state = .upgrade ∨
-    (os.state = .paused ∧ ∃ st, w.ro.steps[(os.curIdx - 1).toNat]? = some st ∧ st.pause = .manual) ∨ os.state = .other := by
+    (w.ro.style = .blueGreen ∧ continuousRelease os wl = true) ∨
+    (rollingNormally w.ro os wl = true ∧ (os.state = .upgrade ∨
+      (os.state = .paused ∧ ∃ st, w.ro.steps[(os.curIdx - 1).toNat]? = some st ∧ st.pause = .manual) ∨ os.state = .other)) := by
   obtain ⟨f1, f2, f3, f4, f5, f6⟩ := normRo_fields _ _ hro
   simp only [subCore, Prod.mk.injEq] at hcore
   obtain ⟨k1, k2, k3, k4, k5, k6, k7⟩ := hcore
@@ -515,11 +516,13 @@ theorem inRolling_quiet (w : World) (ns : Rollout) (s os : Sub) (wl : WL) (r0 : 
     exfalso
     simp only [Out.val.injEq] at h; subst h
     dsimp only at f1; rw [hreason] at f1; cases f1
-  · split at h
+  · rename_i hA
+    split at h
     · exfalso
       simp only [Out.val.injEq] at h; subst h
       dsimp only at f1; rw [hreason] at f1; cases f1
-    · split at h
+    · rename_i hB
+      split at h
       · -- rollback in batches: the canary revision changes
         rename_i hrb
         exfalso
@@ -529,7 +532,8 @@ theorem inRolling_quiet (w : World) (ns : Rollout) (s os : Sub) (wl : WL) (r0 : 
         rw [f4] at f6
         have := (normSub_fields _ _ _ f6).2.2.2.1
         exact hrb.2.1 this
-      · split at h
+      · rename_i hC
+        split at h
         · -- continuous release
           rename_i hcont
           split at h
@@ -549,7 +553,35 @@ theorem inRolling_quiet (w : World) (ns : Rollout) (s os : Sub) (wl : WL) (r0 : 
                   unfold ofCtx at f6; dsimp only at f6
                   simp at f6
                 · simp only [Out.val.injEq] at h; subst h; cases hrq
-        · split at h
+        · rename_i hD
+          have hnorm : rollingNormally w.ro os wl = true := by
+            unfold rollingNormally continuousRelease
+            have hp : w.ro.paused = false := by
+              have := hsame.2.2.2.1
+              rw [← this]; simpa using hB
+            have hnr : ¬ (wl.inRollback = true ∧ wl.canaryRev ≠ os.canaryRev) := by
+              intro hh
+              by_cases hib : ¬ ns.hasTraffic = true ∧ ns.realPartition = true ∧ ns.rollbackInBatch = true
+              · exact hC ⟨hh.1, hh.2, hib⟩
+              · exact hA ⟨hh.1, hh.2, hib⟩
+            simp only [hp, Bool.not_false, Bool.true_and, Bool.and_eq_true, Bool.not_eq_true', Bool.and_eq_false_iff,
+              bne_eq_false_iff_eq, Bool.not_eq_false', bne_iff_ne, ne_eq]
+            constructor
+            · by_cases h1 : os.canaryRev = ""
+              · exact Or.inl (Or.inl h1)
+              · by_cases h2 : wl.canaryRev = os.canaryRev
+                · exact Or.inl (Or.inr h2)
+                · right
+                  by_cases h3 : wl.inRollback = true
+                  · exact h3
+                  · exact absurd ⟨h1, h2, h3⟩ hD
+            · by_cases h3 : wl.inRollback = true
+              · right
+                by_cases h2 : wl.canaryRev = os.canaryRev
+                · exact h2
+                · exact absurd ⟨h3, h2⟩ hnr
+              · left; simpa using h3
+          split at h
           · -- plan changed: the hash is brought up to date
             rename_i hpc
             exfalso
@@ -612,10 +644,10 @@ theorem inRolling_quiet (w : World) (ns : Rollout) (s os : Sub) (wl : WL) (r0 : 
                   split <;> simp [k1]
                 rw [e1, e2, hsteps] at hq
                 rcases hq with hq | hq | hq | hq
-                · exact Or.inr (Or.inl hq)
-                · exact Or.inr (Or.inr (Or.inl hq))
+                · exact Or.inr ⟨hnorm, Or.inl hq⟩
+                · exact Or.inr ⟨hnorm, Or.inr (Or.inl hq)⟩
                 · exfalso; apply hncomp; rw [k3]; exact hq
-                · exact Or.inr (Or.inr (Or.inr hq))
+                · exact Or.inr ⟨hnorm, Or.inr (Or.inr hq)⟩
 
 
 /-! the status calculation outside a release -/
